@@ -98,6 +98,11 @@ EFramesE ==   \* hole E, result E
           Frame("E.ArraySlice", A0, <<<<a1>>, <<>>, <<a2>>>>, 2, 1, 99, "E", "E"),
           Frame("E.ArraySlice", A0, <<<<a1>>, <<a2>>, <<>>>>, 3, 1, 99, "E", "E"),
           Frame("E.ArraySlice", A0, <<<<a1>>, <<>>, <<>>>>, 3, 1, 99, "E", "E"),
+          \* every presence combination of the two optional bounds: x[:], x[a:], x[:b], a[x:]
+          Frame("E.ArraySlice", A0, <<<<>>, <<>>, <<>>>>, 1, 1, 0, "E", "E"),
+          Frame("E.ArraySlice", A0, <<<<>>, <<a1>>, <<>>>>, 1, 1, 0, "E", "E"),
+          Frame("E.ArraySlice", A0, <<<<>>, <<>>, <<a2>>>>, 1, 1, 0, "E", "E"),
+          Frame("E.ArraySlice", A0, <<<<a1>>, <<>>, <<>>>>, 2, 1, 99, "E", "E"),
           Frame("E.FunctionCall", A0, <<<<>>, <<a1>>>>, 1, 1, 0, "E", "E"),
           Frame("E.NamedFunctionCall", [names |-> <<"n1", "n2", "n3">>], <<<<>>, <<a1>>>>, 1, 1, 0, "E", "E"),
           Frame("E.FunctionCallBlock", A0, <<<<>>, <<B0>>>>, 1, 1, 0, "E", "E"),
@@ -118,7 +123,11 @@ EFramesS ==   \* hole E, result S
      Frame("S.While", A0, <<<<>>, <<B0>>>>, 1, 1, 99, "E", "S"),
      Frame("S.DoWhile", A0, <<<<B0>>, <<>>>>, 2, 1, 99, "E", "S"),
      Frame("S.For", A0, <<<<>>, <<>>, <<>>, <<B0>>>>, 2, 1, 99, "E", "S"),
-     Frame("S.For", A0, <<<<S0>>, <<>>, <<S0>>, <<>>>>, 2, 1, 99, "E", "S")}
+     Frame("S.For", A0, <<<<S0>>, <<>>, <<S0>>, <<>>>>, 2, 1, 99, "E", "S"),
+     \* further presence combinations of the optional parts of a for statement around the condition
+     Frame("S.For", A0, <<<<S0>>, <<>>, <<>>, <<B0>>>>, 2, 1, 99, "E", "S"),
+     Frame("S.For", A0, <<<<>>, <<>>, <<S0>>, <<B0>>>>, 2, 1, 99, "E", "S"),
+     Frame("S.For", A0, <<<<>>, <<>>, <<>>, <<>>>>, 2, 1, 99, "E", "S")}
     \cup ListFrames("S.Revert", [error |-> ""], <<>>, 1, <<>>, a1, a2, 99, "E", "S")
     \cup ListFrames("S.Revert", [error |-> "Failure"], <<>>, 1, <<>>, a1, a2, 99, "E", "S")
     \cup ListFrames("S.RevertNamedArgs", [error |-> "Failure", names |-> <<"n1", "n2", "n3">>], <<>>, 1, <<>>, a1, a2, 99, "E", "S")
@@ -151,6 +160,9 @@ SFrames ==
           Frame("S.For", A0, <<<<>>, <<cnd>>, <<>>, <<B0>>>>, 3, 1, 99, "Simple", "S"),
           Frame("S.For", A0, <<<<S0>>, <<cnd>>, <<S0>>, <<>>>>, 4, 1, 99, "S", "S"),
           Frame("S.For", A0, <<<<>>, <<>>, <<>>, <<>>>>, 4, 1, 99, "S", "S"),
+          Frame("S.For", A0, <<<<>>, <<>>, <<>>, <<B0>>>>, 1, 1, 99, "Simple", "S"),
+          Frame("S.For", A0, <<<<>>, <<>>, <<>>, <<B0>>>>, 3, 1, 99, "Simple", "S"),
+          Frame("S.For", A0, <<<<S0>>, <<>>, <<>>, <<>>>>, 4, 1, 99, "S", "S"),
           Frame("E.FunctionCallBlock", A0, <<<<Var("fn")>>, <<>>>>, 2, 1, 99, "B", "E"),
           Frame("E.FunctionCallBlock", A0, <<<<Var("fn")>>, <<>>>>, 2, 1, 99, "Args", "E"),
           Frame("S.Try", [returns |-> <<[present |-> TRUE, storage |-> "", name |-> "r1"]>>, catches |-> <<[kind |-> "simple", id |-> "", param |-> NoParam]>>],
